@@ -40,6 +40,13 @@ Accept(e) ==
          /\ e.eval = <<HornerI(e.A), HornerI(e.m), 1>>
          /\ e.evar = <<HornerI(RevI(e.A)), HornerI(RevI(e.m)), 1>>
     [] e.f = "trajx" -> e.pos0 = <<e.p[1], e.p[2], 1>> /\ e.vel0 = <<e.v[1], e.v[2], 1>>
+    \* very short durations 2^-e, rest to rest between integer positions: end position p1 and start position p0 (exactly
+    \* for the cubic and quintic, whose intermediates are all exact; within 512 units of 2^-K for the septic, which multiplies by a
+    \* double-precision 1/6 - 4096 units in the long double build, where that constant is the dominant error), end velocity and acceleration zero
+    [] e.f = "trajtiny" ->
+         /\ e.pos0 = <<e.p[1], 0, 1>>
+         /\ IF e.deg < 7 THEN e.posT = <<e.p[2], 0, 1>> /\ e.velT = <<0, 0, 1>> /\ e.accT = <<0, 0, 1>>
+                         ELSE e.posT[1] = e.p[2] /\ AbsI(e.posT[2]) <= (IF e.width = 16 THEN 4096 ELSE 512)
     [] OTHER -> FALSE
 
 TraceInit == l = 1
